@@ -52,10 +52,10 @@ OBJECT_LABELS = ("Surveys", "Trace", "TraceDepth", "Property Group IDs")
 # payloads
 # ---------------------------------------------------------------------------
 def tags(h, name, ver, n):
-    """Unique tags; a NaN gap (None in the model) at position 1 of every second writing, so
+    """Unique tags; a NaN gap (None in the model) at position 1 for every second (hole, name) pair, so
     that no-data handling of arrays SHARED between holes is exercised (length >= 2 only)."""
     out = [float(1000 * HIDX[h] + 100 * NIDX[name] + 10 * (ver % 10) + i) for i in range(n)]
-    if n >= 2 and (HIDX[h] + ver) % 2 == 1:
+    if n >= 2 and (HIDX[h] + NIDX[name]) % 2 == 1:
         out[1] = None
     return out
 
